@@ -98,6 +98,12 @@ def gen_init(rng, usr_ids=("USR.A", "USR.B", "USR.C"), dash_with_parent=True, ma
     ids = rng.sample(pool, min(n, len(pool)))
     flat = {}
     for sid in ids:
+        if sid in usr_ids:
+            # user ids refer only to later user ids, in the explicit configuration as in later batches:
+            # a chain that enters the user ids never leaves them, so no cycle can close through a batch
+            later = list(usr_ids)[list(usr_ids).index(sid) + 1:]
+            flat[sid] = gen_descr(rng, later, dash_with_parent)
+            continue
         parents = [p for p in BUILTIN_IDS + list(usr_ids) + list(flat) if p != sid]
         # keep it acyclic: an id may refer only to built-ins/user ids that do not (transitively) refer back
         parents = [p for p in parents if not _reaches(flat, p, sid)]
